@@ -142,6 +142,8 @@ def run(ctx):
         rep = json.load(open(ctx.replay))["replay"]
         if rep.get("case"):
             cases = [rep["case"]]
+    for c in cases[: (8 if ctx.tier == "quick" else 60)]:
+        c["Templates"] = True
     outs = S.run_pipeline(ctx, cases)
     concrete, files = 0, 0
     usable = []
@@ -197,6 +199,17 @@ def run(ctx):
             corr = "model and implementation differ: " + mism[0][1][:300]
         else:
             validated = n
+    if res["stage"] != "translate":
+        triples = [("tmpl_solution", o["SolData"], o["SolText"]) for c, o in usable if o.get("SolData")]
+        ng, mg = S.stageG(ctx, triples)
+        ctx.log("stage G: %d solution texts rendered by the Coq model of text/template from the translated template, %s" % (
+            ng, "identical to what Go wrote" if mg == [] else ("BROKEN" if mg is None else "%d differ" % len(mg))))
+        if mg is None:
+            corr = corr or "stage G case file did not compile"
+        elif mg:
+            corr = corr or ("the translated solution template rendered by the model differs from the written text: " + mg[0][1][:200])
+        else:
+            validated += ng
     if corr and concrete == 0:
         ctx.violation("correspondence between the Coq model and the implementation no longer holds (%s)" % corr,
                       {"correspondence": corr, "searched": "%d solution files through the strict parser oracle, none fails" % files}, no_input=True)
